@@ -85,7 +85,6 @@ fn args(r: &mut Rd) -> R<(bool, bool, bool, bool, String, String, Vec<Cl>, Vec<C
     let norm = r.bool()?;
     let at = r.text()?;
     let bt = r.text()?;
-    r.end()?;
     let a = text_to_string(&at)?;
     let b = text_to_string(&bt)?;
     if clusters(&a, g) != at || clusters(&b, g) != bt {
@@ -105,6 +104,11 @@ fn fl(x: f64) -> String {
 pub fn exec(op: &str, a: &[u64]) -> Result<Outcome, String> {
     let mut r = Rd::new(a);
     let (g, sw, sid, norm, sa, sb, ca, cb) = args(&mut r)?;
+    if op == "eops" {
+        // the recorded script (three numbers per operation) is for the model
+        let _recorded = r.list(|r| Ok((r.nat()?, r.nat()?, r.nat()?)))?;
+    }
+    r.end()?;
     match op {
         "dist" => {
             let d = distance(&sa, &sb, g, sw, sid, norm);
@@ -144,19 +148,10 @@ pub fn exec(op: &str, a: &[u64]) -> Result<Outcome, String> {
             Ok(o)
         }
         "eops" => {
+            // the request also carries the script observed by the generating run (judged by the model: any optimal,
+            // sorted, flag-respecting script is an admissible answer); this run's script is judged by the oracle
             let ops = operations(&sa, &sb, g, sw, sid);
-            let mut v = vec![ops.len() as u64];
-            for (k, i, j) in &ops {
-                v.push(match k {
-                    EditOperation::Insert => 0,
-                    EditOperation::Delete => 1,
-                    EditOperation::Replace => 2,
-                    EditOperation::Swap => 3,
-                });
-                v.push(*i as u64);
-                v.push(*j as u64);
-            }
-            let mut o = Outcome::new(ok(v));
+            let mut o = Outcome::new("accept".to_string());
             let want = ref_distance(&ca, &cb, sw, sid);
             o.check(ops.len() == want, "script length != unnormalised distance");
             o.check(ops.windows(2).all(|w| (w[0].1, w[0].2) <= (w[1].1, w[1].2)), "script not sorted by position");
@@ -252,7 +247,20 @@ pub fn run_c12(ctx: &mut Ctx) {
                         ctx.case("dist", &req(g, sw, sid, norm, a, b));
                         ctx.case("pdist", &req(g, sw, sid, norm, a, b));
                     }
-                    ctx.case("eops", &req(g, sw, sid, false, a, b));
+                    let mut v = req(g, sw, sid, false, a, b);
+                    let ops = std::panic::catch_unwind(|| operations(a, b, g, sw, sid)).unwrap_or_default();
+                    v.push(ops.len() as u64);
+                    for (k, i, j) in &ops {
+                        v.push(match k {
+                            EditOperation::Insert => 0,
+                            EditOperation::Delete => 1,
+                            EditOperation::Replace => 2,
+                            EditOperation::Swap => 3,
+                        });
+                        v.push(*i as u64);
+                        v.push(*j as u64);
+                    }
+                    ctx.case("eops", &v);
                 }
             }
         }
